@@ -16,7 +16,7 @@ CLAIMED = {
           "Trusts the simulator's transport model. Timeouts are never assumed ready (the statement only bounds them from below). One recorded finding (a failing process's error pre-empts an earlier ready source) is excluded by construction and re-witnessed each run.",
           "DESIGN.md §4 C05"),
   "C06": ("proptest-generated binary-heavy process systems x schedules biased to 1-instruction slices; oracle: heap-accounting invariants after EVERY worker step (check_refcounts, freed/free-list consistency, no floating slot, bytes of live slots unchanged) + byte-content model of results",
-          "Programs that capture, pass, send, filter, await (twice) and drop heap binaries are run in the simulator; after every worker step the refcount/reachability invariant, the free-list and freed flags, the absence of slots at count 0 that are neither freed nor queued, and the stability of every still-reachable slot's bytes are checked through hook H3, and results must equal the bytes they were built from. Exploration only.",
+          "Programs that capture, pass, send, filter, await (twice; after a select on the same process timed out while it was still running) and drop heap binaries, optionally ending in a send of a freshly built binary to a sink process, are run in the simulator; after every worker step the refcount/reachability invariant, the free-list and freed flags, the absence of slots at count 0 that are neither freed nor queued, and the stability of every still-reachable slot's bytes (same allocation generation, hook H7) are checked through hook H3, and results must equal the bytes they were built from. Exploration only.",
           "Trusts hook H3's view of the heap and Executor::reachable_heap_indices as the definition of reachability. Built with debug assertions so the runtime's own checks surface as caught panics. REPL compaction is covered by C11's use of the same invariant.",
           "DESIGN.md §4 C06"),
   "C17": ("proptest edit scripts over harvested programs (whitespace/separator substitution, identifier lengthening across width thresholds, redundant blocks, conventional comments, string escapes); oracle: format→parse→format fixpoint, AST equality after normalize_blocks, bytecode identity, independent comment scanner",
@@ -68,7 +68,7 @@ CLAIMED = {
           "Values are literals, so 'compile-time type contained in the pattern type' coincides with membership; construction through widening routes is exercised by C13. Programs the compiler rejects are discarded (counted).",
           "DESIGN.md §4 C08"),
   "C11": ("proptest-generated REPL histories (steps x line splits x rejected lines x schedules) driven through the real Repl/Environment/Workers in the deterministic simulator; oracle: the same steps compiled and run as one program (per-line values, variable set, variable values) + heap invariants after every worker step",
-          "Histories of 3-13 steps (bindings from earlier bindings, shadowing, four destructuring forms, closures capturing earlier bindings, a type alias and a function over it, imports, expression steps incl. the previous result through `~`) are split into lines at generated places with 0-2 rejected lines of eight kinds in between; every accepted line's value, and after every line the variable names and each variable's value, must equal the single program's; the C06 heap invariants run after every worker step (local compaction, orphan release). Exploration only.",
+          "Histories of 3-13 steps (bindings from earlier bindings, shadowing, four destructuring forms, closures capturing earlier bindings, a type alias and a function over it, imports, a function returning a union and a later run-time type test on a variable holding its result, expression steps incl. the previous result through `~`) are split into lines at generated places with 0-2 rejected lines of eight kinds in between, on a fresh environment or one that has already served an earlier session; every accepted line's value, and after every line the variable names and each variable's value, must equal the single program's; the C06 heap invariants run after every worker step (local compaction, orphan release). Exploration only.",
           "The single program is run by the synchronous driver; type aliases are hoisted to its front (a program allows them only there) and start a line in the session. Function values are compared by captured values. Steps never evaluate to nil.",
           "DESIGN.md §4 C11"),
   "C02": ("mutated harvested programs + proptest-generated nested control-flow programs; oracle: differential against an independent reference evaluator of docs/spec.md written over the parser's AST",
